@@ -432,9 +432,33 @@ def plan(tier, seed):
     return [{"shard": i, "n": {"quick": 14, "thorough": 120}[tier], "full": tier == "thorough"} for i in range(n)]
 
 
+def warm_up(rec):
+    """Validation state may not leak between models of one process: models whose datasets are plain dataset models
+    (baseline only, clp-guide only) are validated first; the richer dataset types that follow are judged as usual."""
+    from glotaran.parameter import Parameters
+
+    for mspec in ({"megacomplex": {"b": {"type": "baseline", "dimension": "time"}}, "dataset": {"d1": {"megacomplex": ["b"]}}},
+                  {"megacomplex": {"g": {"type": "clp-guide", "dimension": "time", "target": "s1"}}, "dataset": {"d1": {"megacomplex": ["g"]}}}):
+        try:
+            # a model class of exactly the megacomplex types used: its dataset type is the PLAIN dataset model, the
+            # common base class of every richer dataset type
+            from glotaran.model import Model
+            from glotaran.plugin_system.megacomplex_registration import get_megacomplex
+
+            narrow = Model.create_class_from_megacomplexes([get_megacomplex(mc["type"]) for mc in mspec["megacomplex"].values()])
+            m = narrow(**copy.deepcopy(mspec))
+            ok = m.valid(Parameters({}))
+            rec.count("warm_up_models_validated")
+            if not ok:
+                rec.violation("warm-up:valid-model-rejected", {"spec": json_spec(mspec)}, f"{issue_text(m, Parameters({}))[0][:200]}")
+        except Exception as e:  # noqa
+            rec.violation(f"warm-up:raises:{type(e).__name__}", {"spec": json_spec(mspec)}, f"{type(e).__name__}: {str(e)[:200]}")
+
+
 def run_shard(spec, rec):
     attach(rec)
     rng = rng_for(spec)
+    warm_up(rec)
     for i in range(spec["n"]):
         s = gen_spec(rng)
         n, nt = run_spec(s, rec, rng, spec["full"] or i == 0)
